@@ -4,7 +4,7 @@
     example_* theorems at the end (Witness.v). *)
 From Coq Require Import Ascii String List Bool ZArith QArith Qabs Qminmax Permutation.
 From PTBase Require Import Exn PyStr.
-From P Require Import FromGeo Arith Lists NamesAgree Volume ConnGeom ConnNoDup Decode Witness.
+From P Require Import FromGeo Arith Lists NamesAgree Volume Area ConnGeom ConnNoDup Decode Witness.
 Import ListNotations.
 Open Scope Q_scope.
 
@@ -132,6 +132,30 @@ Theorem total_rock_volume : forall g,
 Proof. exact total_volume_lemma. Qed.
 Print Assumptions total_rock_volume.
 
+(** ** ... with the column area computed from the node coordinates by the modelled
+    geometry.polygon_area ([areas_from_nodes]: column.get_area stores exactly that) *)
+Theorem polygon_area_is_half_shoelace : forall l, polygon_area l == shoelace l / 2.
+Proof. exact polygon_area_shoelace_lemma. Qed.
+Print Assumptions polygon_area_is_half_shoelace.
+
+Theorem block_volume_formula_from_nodes : forall g,
+  wf g -> layers_wf g -> areas_from_nodes g -> forall bm names bl,
+  block_name_list g = Ok names -> NoDup (map (apply_map bm) names) -> fromgeo_blocks g bm = Ok bl ->
+  Forall (fun b => batm b = false ->
+            exists i l c v, nth_error (layers g) (S i) = Some l /\ In c (columns g) /\ lbot l < csurf c /\
+                            bname b = block_name (convention g) (lname l) (cname c) bm /\
+                            bvol b = Some v /\ v == shoelace (cpoly c) / 2 * block_height i l c) bl.
+Proof. exact block_volume_from_nodes_lemma. Qed.
+Print Assumptions block_volume_formula_from_nodes.
+
+Theorem total_rock_volume_from_nodes : forall g,
+  wf g -> layers_wf g -> areas_from_nodes g -> forall bm names bl,
+  tl (layers g) <> [] -> (forall c, In c (columns g) -> bottom_of g < csurf c) ->
+  block_name_list g = Ok names -> NoDup (map (apply_map bm) names) -> fromgeo_blocks g bm = Ok bl ->
+  rock_volume bl == qsum (map (fun c => shoelace (cpoly c) / 2 * (csurf c - bottom_of g)) (columns g)).
+Proof. exact total_volume_from_nodes_lemma. Qed.
+Print Assumptions total_rock_volume_from_nodes.
+
 (** ** connections *)
 Theorem connections_are_vertical_or_horizontal : forall g bm names cs,
   wf g -> layers_wf g -> edges_wf g ->
@@ -214,6 +238,10 @@ Theorem example_geometry_meets_hypotheses : forall atm, (atm <= 2)%nat ->
   tl (layers (g_ex atm)) <> [] /\ (forall c, In c (columns (g_ex atm)) -> bottom_of (g_ex atm) < csurf c).
 Proof. exact ex_hyps. Qed.
 Print Assumptions example_geometry_meets_hypotheses.
+
+Theorem example_areas_from_nodes : forall atm, areas_from_nodes (g_ex atm).
+Proof. exact ex_areas. Qed.
+Print Assumptions example_areas_from_nodes.
 
 Theorem example_column_pairs_distinct : forall atm, hpairs_distinct (g_ex atm).
 Proof. exact ex_hpairs. Qed.
